@@ -192,6 +192,7 @@ func runC04(c *Ctx) {
 		"C04.1 every call chain that removes a sessions row passes through an invalidator: a function in which, on every successful path after the row delete, the keys held (kvs by session index) are rewritten with the holder cleared or deleted, the session_checks links and the session-bound prepared queries are deleted",
 		"C04.2 deleting a node row, deleting a check row and storing a critical check each look up the linked sessions on every successful local-peer path and hand them to the invalidator",
 		"C04.3 a lock is taken only below a successful session lookup and below the edges row-absent / unheld / held-by-the-same-session; it is released on request only below holder == requester",
+		"C04.5 the invalidator collects every row its by-session lookups yield (keys, check links, prepared queries): no filter between the iteration and the release/delete loop",
 		"C04.4 TTL expiry destroys sessions through the replicated log: a SessionDestroy request handed to raftApply, no direct store write from the TTL code",
 	}
 	r.NotDecided = []string{"the invariant over all reachable states (at most one holder, only live sessions) for every history", "client-side lock behaviour (api/lock.go)"}
@@ -258,6 +259,65 @@ func runC04(c *Ctx) {
 		invNames = append(invNames, core.FuncName(f))
 	}
 	r.Analysed["invalidators"] = invNames
+
+	// ---- C04.5 the invalidator collects every row its lookups yield (no filter between the
+	// session-index iteration and the release/delete loop)
+	nColl := 0
+	for f := range invalidators {
+		for _, b := range f.Blocks {
+			for _, in := range b.Instrs {
+				phi, ok := in.(*ssa.Phi)
+				if !ok {
+					continue
+				}
+				if _, isSlice := phi.Type().Underlying().(*types.Slice); !isSlice {
+					continue
+				}
+				back, isHeader := isLoopHeaderPhi(phi)
+				if !isHeader {
+					continue
+				}
+				// a collector: the carried value is an append, and the loop draws rows from an iterator
+				appends := false
+				for _, i := range back {
+					for _, leaf := range core.Leaves(phi.Edges[i], core.SliceOpts{StopAt: func(v ssa.Value) bool { return v == ssa.Value(phi) }}) {
+						_ = leaf
+					}
+					if c, ok := appendRoot(phi.Edges[i], phi, 0); ok && c {
+						appends = true
+					}
+				}
+				hasNext := false
+				for _, bb := range f.Blocks {
+					if !phi.Block().Dominates(bb) {
+						continue
+					}
+					for _, x := range bb.Instrs {
+						if ci, ok := x.(ssa.CallInstruction); ok && ci.Common().IsInvoke() && ci.Common().Method.Name() == "Next" {
+							hasNext = true
+						}
+					}
+				}
+				if !appends || !hasNext {
+					continue
+				}
+				nColl++
+				construct := fmt.Sprintf("%s/collector#%d", core.FuncName(f), nColl)
+				skipped := false
+				for _, i := range back {
+					if carriesUnchanged(phi.Edges[i], phi, map[ssa.Value]bool{}) {
+						skipped = true
+					}
+				}
+				if skipped {
+					r.Violate("C04.5", construct, p.Pos(firstPos(phi.Block())), "the invalidator skips some of the rows its session-index lookup yields (the collecting append is conditional): what those rows record as held by the session — locked keys, check links, queries — survives the session")
+				} else {
+					r.Hold("C04.5", construct, p.Pos(firstPos(phi.Block())), "every row of the lookup is collected")
+				}
+			}
+		}
+	}
+	r.Floor("C04.5", 3)
 
 	// ---- C04.2 cascades
 	isInvalidatorCall := func(in ssa.Instruction) bool {
@@ -641,4 +701,31 @@ func checkSessionTTL(c *Ctx) {
 		}
 	}
 	r.Floor("C04.4", 1)
+}
+
+// appendRoot: v (a loop-carried slice) is produced by append calls rooted at
+// the header phi h (possibly merged through non-header phis with h itself).
+func appendRoot(v ssa.Value, h *ssa.Phi, depth int) (isAppend bool, ok bool) {
+	if depth > 6 {
+		return false, false
+	}
+	switch x := v.(type) {
+	case *ssa.Call:
+		if bi, isB := x.Call.Value.(*ssa.Builtin); isB && bi.Name() == "append" {
+			return true, true
+		}
+		return false, true
+	case *ssa.Phi:
+		any := false
+		for _, e := range x.Edges {
+			if e == ssa.Value(h) {
+				continue
+			}
+			if a, _ := appendRoot(e, h, depth+1); a {
+				any = true
+			}
+		}
+		return any, true
+	}
+	return false, true
 }
